@@ -23,6 +23,16 @@ FineW  == {<<500 * Q + Q \div 2>>, <<500 * Q + Q \div 2, 500 * Q + Q \div 2, 500
            <<400 * Q + Q \div 4, 500 * Q + 3 * (Q \div 4), 500 * Q + 3 * (Q \div 4), 910 * Q>>,
            <<500 * Q, 500 * Q, 600 * Q>>}
 
+\* ---- the systematic stack-limit sweep (enumerated, fonts of two glyphs: .notdef + one sweep)
+SweepPlans == {<<0, 0>>, <<1, 1>>, <<23, 0>>, <<24, 0>>, <<25, 0>>, <<0, 24>>, <<24, 24>>, <<47, 1>>, <<48, 0>>, <<49, 0>>}
+SweepW     == {<<500, 600>>, <<500, 500>>}     \* with / without a width operand on the first operator
+SweepAs    == {5, 300}
+SweepBs    == {7}
+NoRuns     == {1}
+FineSweepAs == {5 * Q + 1, 300 * Q}
+FineSweepBs == {7 * Q + 2}
+SweepInit  == Init /\ ng = 2
+
 \* ---- exhaustive configuration
 TinyD     == {0, 3}
 TinySD    == {2}
